@@ -37,16 +37,19 @@ func vhFragReceiver(v3 bool) *Conversation {
 }
 
 func vhLens(v3 bool) []int {
+	// lengths include exact multiples of small fragment sizes (2x19, 2x23,
+	// 3x19 for the v2 header; 2x37 for the v3 header) as well as lengths just
+	// above one fragment
 	if vTier() == 0 {
 		if v3 {
-			return []int{38, 47}
+			return []int{38, 74}
 		}
-		return []int{20, 31}
+		return []int{20, 38, 46}
 	}
 	if v3 {
-		return []int{38, 39, 52, 75}
+		return []int{38, 39, 52, 74, 75, 111}
 	}
-	return []int{20, 21, 36, 58}
+	return []int{20, 21, 36, 38, 46, 57, 58, 60}
 }
 
 // H-C14-roundtrip: real fragment -> real receiveFragment loop; symbolic
